@@ -250,4 +250,38 @@ Definition M_tb_binop_g (a b : list (blk V)) : res (list (list R)) :=
 (* specification: the operator applied column by column to the flattened operands *)
 Definition S_tb_binop (a b : list (blk V)) : list (list R) := op_cols (columns_of a) (columns_of b).
 
+(* ---- a 1-D (or scalar) operand (type_blocks.py:2362-2400; container_util.apply_binary_operator_blocks /
+   _columnar).  Scalar or one-element operand: the same value against every block.  axis 0: the operand is
+   chopped to the block widths (other[s] for s in _block_shape_slices()), a 1-D block meets its single
+   element, a 2-D block broadcasts its slice over the rows.  axis 1 (columnar): every column of every block
+   against the whole operand, position by position. ---- *)
+Definition col_with (c : list V) (o : V) : list R := map (fun x => f x o) c.
+
+Fixpoint rowwise_blocks (t : list (blk V)) (other : list V) : list (list R) :=
+  match t with
+  | [] => []
+  | b :: r => map (fun p => col_with (fst p) (snd p)) (combine (k_cols V b) (firstn (bwidth b) other))
+              ++ rowwise_blocks r (skipn (bwidth b) other)
+  end.
+
+Definition M_tb_rowwise_g (t : list (blk V)) (other : list V) : list (list R) :=
+  match other with
+  | [o] => flat_map (fun b => map (fun c => col_with c o) (k_cols V b)) t
+  | _ => rowwise_blocks t other
+  end.
+
+Definition M_tb_colwise_g (t : list (blk V)) (other : list V) : list (list R) :=
+  match other with
+  | [o] => flat_map (fun b => map (fun c => col_with c o) (k_cols V b)) t
+  | _ => flat_map (fun b => map (fun c => map2 V R f c other) (k_cols V b)) t
+  end.
+
+(* specifications on the flattened columns *)
+Definition S_tb_rowwise (t : list (blk V)) (other : list V) : list (list R) :=
+  map (fun p => col_with (fst p) (snd p))
+      (combine (columns_of t) (match other with [o] => repeat o (total_bwidth t) | _ => other end)).
+
+Definition S_tb_colwise (t : list (blk V)) (other : list V) : list (list R) :=
+  map (fun c => match other with [o] => col_with c o | _ => map2 V R f c other end) (columns_of t).
+
 End TbBinop.
